@@ -32,6 +32,7 @@ ASSUMPTIONS = [
     "itself is tied to the evaluator by C06.",
     "Grouping inputs whose labels cannot be sorted together (TypeError in the model's own sorted()) are unjudged.",
 ]
+MANIFEST = {"technique": 'runtime monitoring: metamorphic spellings / CLI tokens / subprocess CLI vs canonical result; cursor and groupby model partitions', "engine": 'reference-model monitor'}
 TIME_CAP = {"quick": 70, "thorough": 1200}
 
 
